@@ -11,7 +11,7 @@ import (
 
 func init() {
 	Register(&PropDef{ID: "C07", Run: func(c *Ctx) {
-		if c.Spec.GenSeed%8 == 3 {
+		if c.Spec.GenSeed%8 == 3 && !simrt.RaceEnabled { // (the wire-level actor's reader is no party of the root: not for the race-detector build)
 			c.DisarmDrops()
 			runC07b(c) // bounded buffering for a client that is not reading, measured over rawsocket
 			return
